@@ -306,7 +306,18 @@ func (c *Ctx) execBlocks(fr *frame) Value {
 				c.maxUnwindSeen = fr.backEdges[next.Index]
 			}
 			if fr.backEdges[next.Index] > c.unwind {
-				panic(pathEnd{"unwind", fmt.Sprintf("loop in %s block %d exceeded unwind %d", fr.fn, next.Index, c.unwind)})
+				msg := fmt.Sprintf("loop in %s block %d exceeded unwind %d", fr.fn, next.Index, c.unwind)
+				var vec []uint64
+				if c.solver != nil {
+					if c.solver.Check(nil, false) == Sat {
+						vec = c.modelVector()
+					}
+					c.solver.EndCheck()
+				} else {
+					vec = c.concreteVec
+				}
+				c.reportViolation("unwind", "unwind:"+fr.fn.String(), msg, vec, "")
+				panic(pathEnd{"unwind", msg})
 			}
 		}
 		fr.prev = blk
